@@ -3,7 +3,11 @@ EXHAUSTIVE over the shipped protocol set (both tiers): every interface x message
 pipeline (one generated log per shard, objects created by wl_registry.bind), and for every enum-typed argument each
 entry value, 0, a value outside the enum, and unions of bitfield entries; plus the lookup functions directly.
 Oracle: vlib/wlxml.py (independent ElementTree reader; 'consistent with one highest-version candidate').
-Version precedence: synthetic multi-version descriptions loaded through protocol.load() in every permutation."""
+Version precedence: synthetic multi-version descriptions loaded through protocol.load() in every permutation.
+Generated descriptions (mode `synthetic`): random protocol sets of 2..4 files describing interfaces vs_0..vs_5 at versions
+1..12 (several files may describe one interface), every argument type, local / qualified / dangling enum references,
+bitfields, hex / shifted / padded entry values, zero entries, equal entry values; loaded as the tool's whole protocol set
+(plus the core protocol), then the same per-message sweep as for the shipped set."""
 import itertools
 import os
 import tempfile
@@ -16,7 +20,8 @@ PROPERTY = 'C07'
 RULE = ('every shipped interface x message (requests sent, events received, plus the flipped direction) x argument position; '
         'enum-typed integers: every entry value, 0, one value outside, bitfields: all subsets when <= 10 entries else singles + '
         'pairs + all + 64 random unions; nil for every object/nullable string argument; an interface unknown to the XML; '
-        'synthetic 2..5-version descriptions in every load order. distinct = (interface, message, argument values); '
+        'synthetic 2..5-version descriptions in every load order; generated protocol sets (6 x 6 quick, 46 x 120 thorough) swept the '
+        'same way (exhaustive refers to the shipped set). distinct = (interface, message, argument values); '
         'non-trivial = a line whose expectation contains a name, a nil type or a label')
 ASSUMPTIONS = ['vlib/wlxml.py reads the XML correctly (ElementTree)',
                'the hand-applied enum tag table (HAND_TAGS) is specification copied from the property anchor',
@@ -34,7 +39,11 @@ NSHARDS = 16
 
 
 def plan(tier, seed):
-    return [{'mode': 'ifaces', 'slice': i} for i in range(NSHARDS)] + [{'mode': 'versions'}, {'mode': 'gdb_arrays', 'gdb_shim': True}]
+    base = [{'mode': 'ifaces', 'slice': i} for i in range(NSHARDS)] + [{'mode': 'versions'}, {'mode': 'gdb_arrays', 'gdb_shim': True}]
+    # generated protocol descriptions (the property quantifies over whatever descriptions the tool loads, not only the shipped ones)
+    if tier == 'quick':
+        return base + [{'mode': 'synthetic', 'n': 6} for _ in range(6)]
+    return base + [{'mode': 'synthetic', 'n': 120} for _ in range(46)]
 
 
 def enum_values(rng, enum):
@@ -102,9 +111,18 @@ def expected_arg(cands, iface, msg, desc, a, decorate=True):
     if k == 'int':
         e = wlxml.arg_enum(iface, msg, desc) if decorate else None
         if e:
-            es = wlxml.find_enum(cands, iface, e)
-            if es:
-                return {pre + '%d:%s' % (a[1], '&'.join(wlxml.labels_for(x, a[1]))) for x in es}
+            # one acceptable display per highest-version description of the enum's owner (same-version ties: either);
+            # an owner description without that enum leaves the value undecorated
+            parts = [iface] + e.split('.')
+            owner, ename = parts[-2], parts[-1]
+            res = set()
+            for d in cands.get(owner, []):
+                if ename in d['enums']:
+                    res.add(pre + '%d:%s' % (a[1], '&'.join(wlxml.labels_for(d['enums'][ename], a[1]))))
+                else:
+                    res.add(pre + str(a[1]))
+            if res:
+                return res
         return {pre + str(a[1])}
     if k == 'fixed':
         return {pre + '1.5'}
@@ -197,13 +215,19 @@ class Gen:
                   {'per_cand': per_cand, 'iface': iface, 'msg': msg, 'args': [list(a) for a in variants_args]})
 
 
-def run_ifaces(ctx, spec):
+def run_ifaces(ctx, spec, synthetic=None):
     env.setup()
-    cands = wlxml.shipped(env.REPO)
-    proto = env.load_protocols()
     rng = ctx.rng
-    names = sorted(n for n in cands if n != 'fake_enums')
-    mine = names[spec['slice']::NSHARDS]
+    if synthetic is None:
+        cands = wlxml.shipped(env.REPO)
+        proto = env.load_protocols()
+        names = sorted(n for n in cands if n != 'fake_enums')
+        mine = names[spec['slice']::NSHARDS]
+        extra_case = {}
+    else:
+        cands, proto, mine = synthetic['cands'], synthetic['proto'], synthetic['names']
+        names = sorted(set(mine) | set(n for n in cands if n.startswith('vs_')))
+        extra_case = {'xml': synthetic['xml']}
     g = Gen(cands, rng)
     unknown = ['zz_unknown_v1']
     g.setup(names, unknown)
@@ -287,13 +311,13 @@ def run_ifaces(ctx, spec):
                 ctx.sig([exp['iface'], exp['msg'], exp['args']])
         if not ok:
             ctx.violation('decoration', 'line %r shown as %r, acceptable %r' % (g.lines[idx], outs[:2], allowed[:2]),
-                          {'lines': g.lines[:1 + len(cands) + 2] + [g.lines[idx]], 'iface': exp.get('iface'), 'msg': exp.get('msg')})
+                          dict({'lines': g.lines[:1 + len(names) + 2] + [g.lines[idx]], 'iface': exp.get('iface'), 'msg': exp.get('msg')}, **extra_case))
         elif len(ctx.samples) < 3 and 'per_cand' in exp and ':' in body and idx % 97 == 0:
             ctx.sample({'line': g.lines[idx], 'shown': body})
     for iface, sv in surviving.items():
         if not sv:
             ctx.violation('candidate-inconsistent', 'no single highest-version description of %s explains all of its lines' % iface,
-                          {'iface': iface})
+                          dict({'iface': iface}, **extra_case))
     ctx.count('lines', len(g.lines))
     ctx.count('interfaces', len(mine))
     ctx.count('api_lookups', api_checks)
@@ -517,7 +541,120 @@ def run_gdb_arrays(ctx, spec):
                 oid += 1
 
 
+ARG_NAMES = ['x', 'y', 'id', 'name', 'serial', 'flags', 'mode', 'state', 'surface', 'time', 'value', 'fd', 'data', 'k', 'interface', 'new', 'e', 'type']
+ENTRY_NAMES = ['none', 'one', 'two', 'left', 'right', 'top', 'all', 'a', 'b', 'ab', 'default', 'invalid', 'x1', 'x2', 'big', 'none2']
+
+
+def gen_protocol_set(rng):
+    """-> {file name: xml text}: 2..4 files, interfaces vs_0..vs_5 described in one or several files at versions 1..12"""
+    pool = ['vs_%d' % i for i in range(6)]
+    files = {}
+    for f in range(rng.randint(2, 4)):
+        out = ['<?xml version="1.0" encoding="UTF-8"?>', '<protocol name="vs_proto_%d">' % f,
+               '  <copyright>none</copyright>', '  <description summary="generated">text</description>']
+        for iname in rng.sample(pool, rng.randint(1, 5)):
+            out.append('  <interface name="%s" version="%d">' % (iname, rng.choice([1, 1, 2, 3, 5, 9, 10, 11, 12])))
+            out.append('    <description summary="s">d</description>')
+            enames = ['e%d' % i for i in range(rng.randint(0, 4))]
+            body = []
+            for mi in range(rng.randint(1, 5)):
+                tag = rng.choice(['request', 'event'])
+                attrs = ' type="destructor"' if tag == 'request' and rng.random() < 0.1 else ''
+                if rng.random() < 0.3:
+                    attrs += ' since="%d"' % rng.randint(1, 12)
+                m = ['    <%s name="m%d"%s>' % (tag, mi, attrs), '      <description summary="x"/>']
+                for an in rng.sample(ARG_NAMES, rng.randint(0, 6)):
+                    ty = rng.choice(['int', 'uint', 'uint', 'fixed', 'string', 'object', 'object', 'new_id', 'array', 'fd'])
+                    a = '      <arg name="%s" type="%s"' % (an, ty)
+                    if ty in ('object', 'new_id') and (ty == 'new_id' or rng.random() < 0.8):
+                        a += ' interface="%s"' % rng.choice(pool + ['wl_surface', 'wl_output', 'vs_missing'])
+                    if ty in ('object', 'string') and rng.random() < 0.5:
+                        a += ' allow-null="%s"' % rng.choice(['true', 'true', 'false'])
+                    if ty in ('int', 'uint') and rng.random() < 0.7:
+                        r = rng.random()
+                        if r < 0.55 and enames:
+                            a += ' enum="%s"' % rng.choice(enames)
+                        elif r < 0.85:
+                            a += ' enum="%s.%s"' % (rng.choice(pool), rng.choice(['e0', 'e1', 'e2', 'e3']))
+                        else:
+                            a += ' enum="%s"' % rng.choice(['nope', 'vs_missing.e0', 'e9'])
+                    if rng.random() < 0.3:
+                        a += ' summary="an argument"'
+                    m.append(a + '/>')
+                m.append('    </%s>' % tag)
+                body.append('\n'.join(m))
+            for en in enames:
+                bitfield = rng.random() < 0.5
+                e = ['    <enum name="%s"%s>' % (en, ' bitfield="%s"' % ('true' if bitfield else 'false') if bitfield or rng.random() < 0.3 else '')]
+                for nm in rng.sample(ENTRY_NAMES, rng.randint(1, 6)):
+                    if bitfield:
+                        v = rng.choice([0, 1, 2, 4, 8, 3, 6, 16, 0x80000000, 12])
+                    else:
+                        v = rng.choice([0, 1, 2, 3, 3, 7, 9, 100, 0x110, 4294967295])
+                    r = rng.random()
+                    if r < 0.25:
+                        text = hex(v)
+                    elif r < 0.35 and v and v & (v - 1) == 0:
+                        text = '1 &lt;&lt; %d' % (v.bit_length() - 1)
+                    elif r < 0.4:
+                        text = ' %d ' % v
+                    else:
+                        text = str(v)
+                    e.append('      <entry name="%s" value="%s"%s/>' % (nm, text, ' summary="s"' if rng.random() < 0.5 else ''))
+                e.append('    </enum>')
+                body.append('\n'.join(e))
+            rng.shuffle(body)      # enums before or after the messages that use them
+            out += body
+            out.append('  </interface>')
+        out.append('</protocol>')
+        files['gen_%d.xml' % f] = '\n'.join(out) + '\n'
+    return files
+
+
+def load_synthetic(xml):
+    """write the files, make them (plus the core protocol, for wl_display / wl_registry) the tool's whole protocol set"""
+    from core.wl import protocol
+    from core.output import Output, stream
+    env.load_protocols()            # from now on Session() will not load anything by itself
+    d = tempfile.mkdtemp(prefix='verif-c07-')
+    paths = []
+    for name, text in sorted(xml.items()):
+        p = os.path.join(d, name)
+        with open(p, 'w') as f:
+            f.write(text)
+        paths.append(p)
+    core = [p for p in wlxml.shipped_files(env.REPO) if os.path.basename(p) == 'wayland.xml']
+    out = Output(False, False, stream.Null(), stream.Null())
+    protocol.dump_all()
+    order = core + paths
+    for p in order:
+        protocol.load(p, out)
+    return d, order, protocol
+
+
+def run_synthetic(ctx, spec):
+    env.setup()
+    import shutil
+    rng = ctx.rng
+    for n in range(spec['n']):
+        xml = gen_protocol_set(rng)
+        d, order, proto = load_synthetic(xml)
+        try:
+            cands = wlxml.load_candidates(order)
+            names = sorted(n for n in cands if n.startswith('vs_'))
+            ctx.count('synthetic_protocol_sets')
+            ctx.count('synthetic_interfaces', len(names))
+            ctx.count('synthetic_interfaces_described_more_than_once', sum(1 for nm in names if sum(1 for t in xml.values() if 'name="%s"' % nm in t) > 1))
+            run_ifaces(ctx, {'slice': 1}, {'cands': cands, 'proto': proto, 'names': names, 'xml': xml})
+        finally:
+            shutil.rmtree(d, ignore_errors=True)
+        if ctx.out_of_time():
+            break
+
+
 def run(ctx, spec):
+    if spec.get('mode') == 'synthetic':
+        return run_synthetic(ctx, spec)
     if spec.get('mode') == 'gdb_arrays':
         return run_gdb_arrays(ctx, spec)
     if spec.get('mode') == 'versions':
@@ -531,6 +668,20 @@ def replay(ctx, case):
     env.setup()
     if 'versions' in case:
         run_versions(ctx, {})
+        return
+    if 'xml' in case:
+        import shutil
+        d, order, proto = load_synthetic(case['xml'])
+        try:
+            cands = wlxml.load_candidates(order)
+            if 'lines' in case:
+                s = Session()
+                s.feed([l + '\n' for l in case['lines']])
+                for k, p in s.per_read().get(len(case['lines']) - 1, []):
+                    print(k, outline.strip_sgr(p))
+            run_ifaces(ctx, {'slice': 1}, {'cands': cands, 'proto': proto, 'names': sorted(n for n in cands if n.startswith('vs_')), 'xml': case['xml']})
+        finally:
+            shutil.rmtree(d, ignore_errors=True)
         return
     if 'lines' in case:
         s = Session()
